@@ -22,7 +22,7 @@
 (*     features that are not named do not take part in the run.            *)
 (*   It models the code as it is, including the behaviour (P) rejects.     *)
 (*   Not modelled: the banner/comment lines, timestamps, the               *)
-(*   show_failed_scenarios_descriptions block, @setup/@teardown exemption  *)
+(*   show_failed_scenarios_descriptions block.                             *)
 (*   (the programs of the run cluster never use these tags).               *)
 (*                                                                         *)
 (* (P) the property clauses, over observables only: the model after the    *)
@@ -139,11 +139,16 @@ SelectRunItem(m, f, l) ==
    IN IF key = 0 THEN f ELSE CHOOSE e \in U : m.line[e] = key
 \* select_scenarios_by_line: feature / rule -> walk_scenarios, outline -> its rows, scenario -> itself
 \* build_feature: no line collected or a bare file name -> the feature unchanged (everything selected)
+\* the documented exemption: a scenario whose OWN tags (for an outline row: the tags of its outline and of its Examples
+\* block, which behave copies onto the row) contain setup or teardown; tags inherited from a rule or feature do not count
+Exempt(m, s) == \E k \in DOMAIN m.prog[s].tags : m.prog[s].tags[k] \in {"setup", "teardown"}
 GroupSel(m, g) ==
    IF FeaturesOfFile(m, g.f) = {} THEN {}
    ELSE LET f == CHOOSE e \in FeaturesOfFile(m, g.f) : TRUE IN
         IF g.all \/ g.ls = {} THEN SeqSet(Walk(m, f))
         ELSE UNION {SeqSet(Walk(m, SelectRunItem(m, f, l))) : l \in g.ls}
+             \* build_feature: `if "setup" in scenario.tags or "teardown" in scenario.tags: continue` -- never skip-marked
+             \cup {s \in SeqSet(Walk(m, f)) : Exempt(m, s)}
 \* result of the second start: ok = every named file is a feature file of the program (otherwise parse_file raises);
 \* sel = scenarios left to run (should_skip false); everything else in the named features is mark_skipped()
 FeedBack(m, lines) ==
@@ -166,7 +171,11 @@ StaleOK(m, file) == UnsuccSeq(m) = <<>> => ~file.exists
 ScenAt(m, x)  == {s \in Scens(m) : m.fidx[s] = x.f /\ m.line[s] = x.l}
 LoopJudged(m, file) == file.exists /\ ~file.stale /\ \A i \in DOMAIN file.lines : ScenAt(m, file.lines[i]) # {}
 Listed(m, file) == UNION {ScenAt(m, file.lines[i]) : i \in DOMAIN file.lines}
-LoopOK(m, file, fb) == LoopJudged(m, file) => fb.ok /\ fb.sel = Listed(m, file)
+\* scenarios exempt from skipping in the features the file names: they may run or not (the statement is silent about
+\* them, the code documents that they stay; their handling is C10's business) -- a relation, not a function
+ExemptNamed(m, file) == {s \in Scens(m) : Exempt(m, s) /\ \E i \in DOMAIN file.lines : file.lines[i].f = m.fidx[s]}
+LoopOK(m, file, fb) == LoopJudged(m, file) =>
+   fb.ok /\ Listed(m, file) \subseteq fb.sel /\ fb.sel \subseteq Listed(m, file) \cup ExemptNamed(m, file)
 
 \* ---------------------------------------------------------------- the known defect (DESIGN §8 #2), narrowly
 \* eof() tests `== Status.failed` on the feature and on the scenario: scenarios that ended in an error-class status are
